@@ -21,6 +21,7 @@ use loom::sync::{Arc, Mutex, MutexGuard};
 use std::future::Future;
 use std::sync::atomic::{AtomicU64, AtomicUsize, Ordering};
 use std::sync::OnceLock;
+use std::pin::Pin;
 use std::task::{Context, Poll, RawWaker, RawWakerVTable, Waker};
 
 /// RawMutex on top of a native loom mutex: lock() takes the loom mutex and
@@ -151,6 +152,13 @@ impl Tracked {
     }
     fn get(&self) -> u32 {
         self.0.with(|p| unsafe { *p })
+    }
+}
+
+impl std::fmt::Debug for Tracked {
+    fn fmt(&self, f: &mut std::fmt::Formatter) -> std::fmt::Result {
+        // a read of the non-atomic payload: only legal for whoever holds the guard
+        write!(f, "Tracked({})", self.get())
     }
 }
 
@@ -635,6 +643,232 @@ fn state_clone_exclusive() {
     for h in hs {
         h.join().unwrap();
     }
+}
+
+/// `Debug` formatting of the mutex, of a pending lock future and of whatever it yields runs on
+/// one thread while another one modifies the payload under the guard: the mutex is `Sync` for a
+/// payload that is only `Send`, so formatting must not look at the payload without the lock.
+fn mutex_debug_vs_guard() {
+    let m = Arc::new(GenericMutex::<LoomRaw, Tracked>::new(Tracked::new(), false));
+    let _ = m.is_locked();
+    let m1 = m.clone();
+    let h = loom::thread::spawn(move || {
+        loom::future::block_on(async {
+            let g = m1.lock().await;
+            g.incr();
+        });
+    });
+    let text = format!("{:?}", m);
+    assert!(!text.is_empty());
+    {
+        let f = m.lock();
+        let _ = format!("{:?}", f);
+    }
+    if let Some(g) = m.try_lock() {
+        let _ = format!("{:?}", g);
+        g.incr();
+    }
+    h.join().unwrap();
+    let g = m.try_lock().expect("C03: mutex not lockable after all tasks finished");
+    assert!(g.get() >= 1, "C02: lost update under the guard");
+    drop(g);
+    epilogue_mutex(&m);
+}
+
+// ------------------------------------------------ writes into a completed, dropped future
+/// Storage for a future that is dropped in place and then filled with a poison pattern; the memory
+/// stays allocated, so a library that still writes to the "dropped future" (C01) changes the pattern
+/// instead of corrupting the allocator.
+struct PoisonBox<F> {
+    mem: Box<std::mem::MaybeUninit<F>>,
+    alive: bool,
+}
+impl<F> PoisonBox<F> {
+    fn new(f: F) -> Self {
+        PoisonBox { mem: Box::new(std::mem::MaybeUninit::new(f)), alive: true }
+    }
+    fn pin(&mut self) -> Pin<&mut F> {
+        assert!(self.alive);
+        unsafe { Pin::new_unchecked(&mut *self.mem.as_mut_ptr()) }
+    }
+    fn kill(&mut self) {
+        assert!(self.alive);
+        unsafe {
+            std::ptr::drop_in_place(self.mem.as_mut_ptr());
+            std::ptr::write_bytes(self.mem.as_mut_ptr() as *mut u8, 0xA5, std::mem::size_of::<F>());
+        }
+        self.alive = false;
+    }
+    fn untouched(&self) -> bool {
+        let p = self.mem.as_ptr() as *const u8;
+        (0..std::mem::size_of::<F>()).all(|i| unsafe { *p.add(i) } == 0xA5)
+    }
+}
+impl<F> Drop for PoisonBox<F> {
+    fn drop(&mut self) {
+        if self.alive {
+            unsafe { std::ptr::drop_in_place(self.mem.as_mut_ptr()) };
+        }
+    }
+}
+
+/// The owner of a registered timer future re-polls it while the timer thread expires it, and
+/// drops it as soon as it has completed: the timer thread must not touch it afterwards. (The
+/// waker is a scheduling one: the owner may run while the timer thread is inside `wake()`.)
+fn timer_expire_vs_complete() {
+    CLK.0.store(0, Ordering::SeqCst);
+    let t = Arc::new(GenericTimerService::<LoomRaw>::new(&CLK));
+    let _ = t.next_expiration();
+    let tr: &'static GenericTimerService<LoomRaw> = unsafe { &*(&*t as *const GenericTimerService<LoomRaw>) };
+    let mut f = PoisonBox::new(Timer::deadline(tr, 1));
+    let (w, c) = counting_waker();
+    assert!(f.pin().poll(&mut Context::from_waker(&w)).is_pending());
+    let t1 = t.clone();
+    let h = loom::thread::spawn(move || {
+        CLK.0.store(1, Ordering::SeqCst);
+        t1.check_expirations();
+    });
+    let mut killed = false;
+    if f.pin().poll(&mut Context::from_waker(&w)).is_ready() {
+        f.kill();
+        killed = true;
+    }
+    h.join().unwrap();
+    if killed {
+        assert!(f.untouched(), "C01: the timer wrote into a future after it had completed and been dropped");
+    } else {
+        assert!(c.load(Ordering::SeqCst) > 0, "C15: check_expirations() ran with clock >= deadline but the registered future was not woken");
+        assert!(f.pin().poll(&mut Context::from_waker(&w)).is_ready(), "C15: due timer future does not complete");
+        f.kill();
+        assert!(f.untouched());
+    }
+    epilogue_timer(&t, 1);
+}
+
+/// the same for the event: the waiter completes and is dropped while set() is still running
+fn event_set_vs_complete() {
+    let e = Arc::new(GenericManualResetEvent::<LoomRaw>::new(false));
+    let _ = e.is_set();
+    let er: &'static GenericManualResetEvent<LoomRaw> = unsafe { &*(&*e as *const GenericManualResetEvent<LoomRaw>) };
+    let mut f = PoisonBox::new(er.wait());
+    let mut f2 = Box::pin(er.wait());
+    let (w, c) = counting_waker();
+    let (w2, _c2) = counting_waker();
+    assert!(f2.as_mut().poll(&mut Context::from_waker(&w2)).is_pending());
+    assert!(f.pin().poll(&mut Context::from_waker(&w)).is_pending());
+    let e1 = e.clone();
+    let h = loom::thread::spawn(move || e1.set());
+    let mut killed = false;
+    if f.pin().poll(&mut Context::from_waker(&w)).is_ready() {
+        f.kill();
+        killed = true;
+    }
+    h.join().unwrap();
+    if killed {
+        assert!(f.untouched(), "C01: set() wrote into a wait future after it had completed and been dropped");
+    } else {
+        assert!(c.load(Ordering::SeqCst) > 0, "C14: set() did not wake a pending waiter");
+        assert!(f.pin().poll(&mut Context::from_waker(&w)).is_ready(), "C14: wait future pending although the event is set");
+        f.kill();
+    }
+    assert!(f2.as_mut().poll(&mut Context::from_waker(&w2)).is_ready());
+    drop(f2);
+    epilogue_event(&e);
+}
+
+// ------------------------------------------------ many parked waiters under threads
+// Mass wake-ups that are split into several critical sections once more than some number of
+// futures are parked (batches of 16 / 32 / 64) behave like the original below the threshold and
+// for every single-threaded history. 70 parked futures (passive: polled once by the main thread)
+// put every such threshold up to 64 behind us; the racing thread then does what the split
+// makes visible.
+
+const MANY: usize = 70;
+
+/// set() races with reset() followed by the registration of a new waiter: a waiter that starts
+/// waiting after the last reset waits for the next set
+fn event_many_set_vs_reset() {
+    let e = Arc::new(GenericManualResetEvent::<LoomRaw>::new(false));
+    let _ = e.is_set();
+    let er: &'static GenericManualResetEvent<LoomRaw> = unsafe { &*(&*e as *const GenericManualResetEvent<LoomRaw>) };
+    let (w, c) = plain_waker();
+    let mut parked: Vec<_> = (0..MANY).map(|_| Box::pin(er.wait())).collect();
+    for f in parked.iter_mut() {
+        assert!(f.as_mut().poll(&mut Context::from_waker(&w)).is_pending());
+    }
+    let e1 = e.clone();
+    let h1 = loom::thread::spawn(move || e1.set());
+    let e2 = e.clone();
+    let h2 = loom::thread::spawn(move || {
+        e2.reset();
+        let er: &'static GenericManualResetEvent<LoomRaw> = unsafe { &*(&*e2 as *const GenericManualResetEvent<LoomRaw>) };
+        let mut g = Box::pin(er.wait());
+        let (wg, cg) = plain_waker();
+        let ready = g.as_mut().poll(&mut Context::from_waker(&wg)).is_ready();
+        (SendBox(Box::new(g)), wg, cg, ready, e2)
+    });
+    h1.join().unwrap();
+    let (g, wg, cg, ready_then, _keep) = h2.join().unwrap();
+    let mut g = *g.0;
+    assert!(c.load(Ordering::SeqCst) >= MANY, "C14: set() did not wake every waiter that was parked before it ({} of {})", c.load(Ordering::SeqCst), MANY);
+    for f in parked.iter_mut() {
+        assert!(f.as_mut().poll(&mut Context::from_waker(&w)).is_ready(), "C14: a waiter parked before set() stays pending");
+    }
+    if e.is_set() {
+        // the set came last: the late waiter completed at once or has been woken
+        assert!(ready_then || cg.load(Ordering::SeqCst) > 0, "C14: set() after the registration of a waiter did not wake it");
+        assert!(ready_then || g.as_mut().poll(&mut Context::from_waker(&wg)).is_ready(), "C14: wait future pending although the event is set");
+    } else {
+        // the reset came last, and the late waiter started waiting after it
+        assert!(!ready_then, "C14: a waiter that started waiting after the last reset() completed without a set()");
+        assert!(g.as_mut().poll(&mut Context::from_waker(&wg)).is_pending(), "C14: a waiter that started waiting after the last reset() completed although the event was not set again");
+    }
+    drop(g);
+    drop(parked);
+    epilogue_event(&e);
+}
+
+/// check_expirations() with many due timers races with a thread that abandons one parked timer
+/// and registers a new, later one
+fn timer_many_vs_abandon() {
+    CLK.0.store(0, Ordering::SeqCst);
+    let t = Arc::new(GenericTimerService::<LoomRaw>::new(&CLK));
+    let _ = t.next_expiration();
+    let tr: &'static GenericTimerService<LoomRaw> = unsafe { &*(&*t as *const GenericTimerService<LoomRaw>) };
+    let (w, c) = plain_waker();
+    let mut parked: Vec<_> = (0..MANY).map(|_| Box::pin(Timer::deadline(tr, 1))).collect();
+    for f in parked.iter_mut() {
+        assert!(f.as_mut().poll(&mut Context::from_waker(&w)).is_pending());
+    }
+    let victim = SendBox(Box::new(parked.remove(MANY / 2)));
+    CLK.0.store(1, Ordering::SeqCst);
+    let t1 = t.clone();
+    let h1 = loom::thread::spawn(move || t1.check_expirations());
+    let t2 = t.clone();
+    let h2 = loom::thread::spawn(move || {
+        drop(victim);
+        let tr: &'static GenericTimerService<LoomRaw> = unsafe { &*(&*t2 as *const GenericTimerService<LoomRaw>) };
+        let mut late = Box::pin(Timer::deadline(tr, 5));
+        let (wl, cl) = plain_waker();
+        let ready = late.as_mut().poll(&mut Context::from_waker(&wl)).is_ready();
+        (SendBox(Box::new(late)), wl, cl, ready, t2)
+    });
+    h1.join().unwrap();
+    let (late, wl, cl, ready_then, _keep) = h2.join().unwrap();
+    let mut late = *late.0;
+    assert!(c.load(Ordering::SeqCst) >= MANY - 1, "C15: check_expirations() did not wake every due timer ({} of {})", c.load(Ordering::SeqCst), MANY - 1);
+    for f in parked.iter_mut() {
+        assert!(f.as_mut().poll(&mut Context::from_waker(&w)).is_ready(), "C15: a due timer stays pending after check_expirations()");
+    }
+    assert!(!ready_then && cl.load(Ordering::SeqCst) == 0, "C15: a timer with deadline 5 completed or was woken at clock 1");
+    assert_eq!(t.next_expiration(), Some(5), "C15: next_expiration() is not the deadline of the only registered timer");
+    CLK.0.store(5, Ordering::SeqCst);
+    t.check_expirations();
+    assert!(cl.load(Ordering::SeqCst) > 0, "C15: due timer not woken");
+    assert!(late.as_mut().poll(&mut Context::from_waker(&wl)).is_ready(), "C15: due timer future does not complete");
+    drop(late);
+    drop(parked);
+    epilogue_timer(&t, 5);
 }
 
 // ------------------------------------------------ sequential epilogues
@@ -1917,6 +2151,11 @@ const SCENARIOS: &[(&str, &str, Scenario)] = &[
     ("event_set_vs_abandon_tail", "wk:C01,C14", event_set_vs_abandon_tail),
     ("mpmc_close_vs_abandon", "wk:C01,C11", mpmc_close_vs_abandon),
     ("mpmc_close_vs_abandon_rev", "wk:C01,C11", mpmc_close_vs_abandon_rev),
+    ("timer_expire_vs_complete", "wk:C01,C15", timer_expire_vs_complete),
+    ("event_set_vs_complete", "wk:C01,C14", event_set_vs_complete),
+    ("mutex_debug_vs_guard", "C02,C16", mutex_debug_vs_guard),
+    ("event_many_set_vs_reset", "C01,C14", event_many_set_vs_reset),
+    ("timer_many_vs_abandon", "C01,C15", timer_many_vs_abandon),
     ("bcast_clone_exclusive", "C12,C16", bcast_clone_exclusive),
     ("state_clone_exclusive", "C13,C16", state_clone_exclusive),
     ("mpmc_double_close", "hook:C11", mpmc_double_close),
